@@ -507,6 +507,17 @@ func genDocClass(c *hc.Ctx, class string) *Doc {
 		d.VB = &[4]float64{0, 0, vw * []float64{0.5, 2, 1.5}[c.Intn(3)], vh}
 		d.PAR = false
 		d.Features["aspect"] = true
+		// default (absent or spelled out) mostly; other align/slice values are drawn like the default by the
+		// importer (narrow known finding C19-aspect-align-slice)
+		switch c.Intn(8) {
+		case 0:
+			d.PARText = "xMidYMid meet"
+		case 1:
+			d.PARText = "xMidYMid"
+		case 2, 3, 4:
+			d.PARText = []string{"xMinYMin meet", "xMaxYMax", "xMinYMid meet", "xMidYMax meet", "xMidYMid slice", "xMinYMax slice"}[c.Intn(6)]
+			d.Features["aspect-align-slice"] = true
+		}
 	}
 	if d.VB != nil && (class == "viewbox-origin" || c.Chance(0.3)) {
 		// any origin is ordinary since 32efa25
@@ -834,6 +845,28 @@ func genDocClass(c *hc.Ctx, class string) *Doc {
 		if class == "dash-sw" {
 			forceAttr(s, "stroke-width", Val{K: 'D', Num: []float64{2, 3, 0.5, 4}[c.Intn(4)]}, c.Bool())
 			d.Features["dash-sw"] = true
+			if c.Bool() {
+				// a short outline whose first dash is shorter than the path, but not in multiples of the stroke
+				// width (or the other way round): Context.DrawPath's cover shortcut must decide in the units
+				// the renderers use (regression class of 7030ab4)
+				w, h := float64(3+c.Intn(4)), float64(3+c.Intn(4))
+				per := 2 * (w + h)
+				sw := []float64{0.25, 0.5, 2, 4}[c.Intn(4)]
+				d0 := per * []float64{0.4, 0.6}[c.Intn(2)]
+				if sw > 1 {
+					d0 = per * 1.5 // longer than the path in user units, shorter in width multiples
+				}
+				d0 = float64(int(d0*4)) / 4
+				r := &Node{Tag: "rect", Attrs: []Attr{
+					{Key: "x", V: Val{K: 'D', Num: g.coord()}}, {Key: "y", V: Val{K: 'D', Num: g.coord()}},
+					{Key: "width", V: Val{K: 'D', Num: w}}, {Key: "height", V: Val{K: 'D', Num: h}},
+					{Key: "fill", V: kw("none")}, {Key: "stroke", V: g.colourVal()},
+					{Key: "stroke-width", V: Val{K: 'D', Num: sw}},
+					{Key: "stroke-dasharray", V: Val{K: 'N', Sep: " ", Nums: []float64{d0, float64(1 + c.Intn(5))}}}}}
+				shuffleAttrs(c, r.Attrs)
+				root.Kids = append(root.Kids, r)
+				c.Count("dash-sw:cover-decision")
+			}
 		}
 	}
 	if class == "skew" {
